@@ -1,0 +1,5 @@
+//go:build verif && !amd64 && !arm64
+
+package dsp
+
+const verifIsArm64 = false
